@@ -652,6 +652,9 @@ pub fn profile_for(prop: &str) -> Profile {
             p.p_spurious = 40;
             p.p_new_waker = 30;
             p.p_repoll = 30;
+            // close / last-handle drops racing a stream or a future whose wait has already been completed by a peer
+            p.p_close = 10;
+            p.p_handle_ops = 5;
             p.send_w = [15, 2, 2, 3, 2, 1, 1, 74];
             p.recv_w = [10, 2, 3, 1, 3, 41, 38, 2];
         }
